@@ -232,7 +232,7 @@ func VerifH06b() {
 		menu = 8
 	}
 	if vParam("X", 0) > 0 {
-		menu = 10 // also unknown-type and oversized messages
+		menu = 12 // also unknown-type and oversized messages, Describe/Close of an unknown kind
 	}
 	for i := 0; i < K; i++ {
 		kinds[i] = vChoose(menu)
@@ -256,7 +256,10 @@ func VerifH06b() {
 			input = append(input, vMsgBytes('D', vCat([]byte{kind}, vCStr([]byte(vNames(a2[i])))))...)
 		case 3: // Execute portal
 			a1[i] = vChoose(2)
-			input = append(input, vMsgBytes('E', vCat(vCStr([]byte(vNames(a1[i]))), vU32(0)))...)
+			// the row limit: "no limit" or any limit the statement's single row stays under
+			lim := nondetU32()
+			vAssume(vOr(lim == 0, lim >= 2))
+			input = append(input, vMsgBytes('E', vCat(vCStr([]byte(vNames(a1[i]))), vU32(lim)))...)
 		case 4: // Close kind, name
 			a1[i] = vChoose(2)
 			a2[i] = vChoose(2)
@@ -277,6 +280,15 @@ func VerifH06b() {
 			input = append(input, vMsgBytes('z', nondetBytes(vChoose(2)))...)
 		case 9: // an oversized message (limit 64) of an extended-query type
 			input = append(input, vMsgBytes('P', make([]byte, 65+vChoose(2)))...)
+		case 10, 11: // Describe / Close of a kind that is neither statement nor portal
+			kind := nondetByte()
+			vAssume(vAnd(kind != 'S', kind != 'P'))
+			a2[i] = vChoose(2)
+			t := byte('D')
+			if kinds[i] == 11 {
+				t = 'C'
+			}
+			input = append(input, vMsgBytes(t, vCat([]byte{kind}, vCStr([]byte(vNames(a2[i])))))...)
 		}
 	}
 
@@ -400,6 +412,9 @@ func VerifH06b() {
 		case 6:
 			want = "Z"
 			ref.skip = false
+		case 10, 11:
+			fail = true // an error, never silence or a dropped connection
+			vReach("describe-or-close-of-unknown-kind")
 		case 7:
 			// simple query: one cycle ending in exactly one Z
 			vAssert("simple-query-one-Z-last", vCount(got, 'Z') == 1 && got[len(got)-1] == 'Z')
